@@ -32,6 +32,8 @@ type Node struct {
 	// SchedSeed != 0: run the next processes under the parking scheduler
 	SchedSeed uint64
 	LastSched *Sched
+	// RealBadger: the CLI opens its real Badger store under WrglDir instead of the simulated one
+	RealBadger bool
 }
 
 var (
@@ -45,7 +47,7 @@ func init() {
 	local.VerifOpenObjectsStore = func(dir string) (objects.Store, bool) {
 		nodesMu.Lock()
 		defer nodesMu.Unlock()
-		if n, ok := nodes[filepath.Clean(dir)]; ok {
+		if n, ok := nodes[filepath.Clean(dir)]; ok && !n.RealBadger {
 			return n.Objs, true
 		}
 		return nil, false
